@@ -23,7 +23,7 @@ theorem slice_wr_of_disjoint (b src : Bytes) (off p len : Nat) (h : off + src.le
   · rw [wr_getElem? _ _ _ _ h]; ite_omega
   · rfl
 
-theorem slice_wr_same (b src : Bytes) (off : Nat) (h : off + src.length ≤ b.length) :
+theorem slice_wr_same_arr (b src : Bytes) (off : Nat) (h : off + src.length ≤ b.length) :
     slice (wr b off src) off src.length = src := by
   apply List.ext_getElem?; intro i
   simp only [slice_getElem?]
@@ -78,7 +78,7 @@ theorem table_swap (d : Bytes) (es S n i j : Nat) (hS : S ≤ es) (hij : i < j) 
     · subst hkj
       simp only [if_true]
       congr 1
-      have := slice_wr_same (wr d (i * es) (slice d (k * es) S)) (slice d (i * es) S) (k * es)
+      have := slice_wr_same_arr (wr d (i * es) (slice d (k * es) S)) (slice d (i * es) S) (k * es)
         (by omega)
       rw [l2] at this; exact this
     · by_cases hki : k = i
@@ -86,7 +86,7 @@ theorem table_swap (d : Bytes) (es S n i j : Nat) (hS : S ≤ es) (hij : i < j) 
         simp only [hkj, if_false, if_true]
         congr 1
         rw [slice_wr_of_disjoint _ _ _ _ _ (by omega) (by omega)]
-        have := slice_wr_same d (slice d (j * es) S) (k * es) (by omega)
+        have := slice_wr_same_arr d (slice d (j * es) S) (k * es) (by omega)
         rw [l1] at this; exact this
       · simp only [hkj, hki, if_false]
         congr 1
